@@ -32,6 +32,51 @@ def real(case):
     return out
 
 
+def real_cli(case):
+    """motif_extractor.main in-process on a temporary file; what it prints must be the dot-bracket and the element
+    descriptions of the structure the flags select (computed through the library on a fresh object, whose elements
+    are judged by the specification like every other input)"""
+    import contextlib
+    import io
+    import os
+    import sys
+    import tempfile
+    from rnapolis import motif_extractor
+    from rnapolis.common import BpSeq
+    seq, pairs, as_dbn, rm_iso, rm_pk = case
+    b = g1.mk_bpseq(seq, pairs)
+    with tempfile.TemporaryDirectory(prefix="c07-") as d:
+        if as_dbn:
+            path = os.path.join(d, "in.dbn")
+            with open(path, "w") as f:
+                f.write(">in\n%s\n%s\n" % (seq, b.fcfs.structure))
+            argv = ["motif_extractor", "--dbn", path]
+        else:
+            path = os.path.join(d, "in.bpseq")
+            with open(path, "w") as f:
+                f.write(str(b) + "\n")
+            argv = ["motif_extractor", "--bpseq", path]
+        argv += (["--remove-isolated"] if rm_iso else []) + (["--remove-pseudoknots"] if rm_pk else [])
+        buf = io.StringIO()
+        old = sys.argv
+        sys.argv = argv
+        try:
+            with contextlib.redirect_stdout(buf):
+                r = call(motif_extractor.main)
+        finally:
+            sys.argv = old
+    if r[0] != "ok":
+        return {"err": r[1]}
+    # expectation through the library
+    e = g1.mk_bpseq(seq, pairs)
+    if rm_iso:
+        e = e.without_isolated()
+    if rm_pk:
+        e = e.without_pseudoknots()
+    exp = "Full dot-bracket:\n%s\n" % e.dot_bracket + "".join(str(x) + "\n" for l in e.elements for x in l)
+    return {"out": buf.getvalue(), "exp": exp, "pairs_after": [x.pair for x in e.entries]}
+
+
 def enc_rows(rows):
     return ";".join(",".join(map(str, r)) for r in rows) if rows else "-"
 
@@ -134,6 +179,21 @@ def run(ctx):
         res.count("hairpins", len(o["hairpins"]))
         res.count("stems", len(o["stems"]))
         res.count("singles", len(o["singles"]))
+    # ---- the command-line tool
+    rng = ctx.rng
+    cli = []
+    pool = [c for t, c in inputs if t in ("hand", "planted", "nested", "tight") and len(c[0]) <= 120]
+    for seq, pairs in rng.sample(pool, min(len(pool), ctx.pick(40, 400))):
+        cli.append((seq, pairs, rng.random() < 0.5, rng.random() < 0.4, rng.random() < 0.4))
+    for c, o in zip(cli, parallel_map(real_cli, cli)):
+        seq, pairs, as_dbn, rm_iso, rm_pk = c
+        inp = {"seq": seq, "pairs": pairs, "family": "cli", "dbn": as_dbn, "remove_isolated": rm_iso, "remove_pseudoknots": rm_pk}
+        res.case(("cli", tuple(pairs), as_dbn, rm_iso, rm_pk), nontrivial=any(pairs))
+        res.count("family:cli")
+        if "err" in o:
+            res.fail("spec", "C07:cli:raises:" + o["err"], inp, "motif_extractor.main raised " + o["err"])
+        elif o["out"] != o["exp"]:
+            res.fail("spec", "C07:cli:output", inp, "tool printed %r, the library gives %r" % (o["out"][:300], o["exp"][:300]))
     for (tag, c), o in list(zip(inputs, outs))[::max(1, len(inputs) // 6)][:6]:
         res.sample({"family": tag, "seq": c[0][:40], "pairs": c[1][:40], "elements": o.get("desc", [])[:6]})
     return res
